@@ -195,6 +195,15 @@ vecit_Engine_TaggedPrekillHook ext__remove_if__vecit_Engine_TaggedPrekillHook_ve
   g_hooks_removed = last.i - r.i;
   return r;
 }
+/* std::partition / std::stable_partition (not used at the pinned commit): like remove_if they return the boundary, but
+   std::partition does NOT keep the relative order of the elements it keeps - for prekill hooks that order IS the priority */
+_Bool g_hooks_order_kept;
+vecit_Engine_TaggedPrekillHook ext__partition__vecit_Engine_TaggedPrekillHook_vecit_Engine_TaggedPrekillHook_lambda_t(vecit_Engine_TaggedPrekillHook first, vecit_Engine_TaggedPrekillHook last, void *pred)
+{ vecit_Engine_TaggedPrekillHook r = first; r.i = nondet_u64(); __CPROVER_assume(r.i >= first.i && r.i <= last.i); g_hooks_removed = last.i - r.i; g_hooks_order_kept = 0; return r; }
+vecit_Engine_TaggedPrekillHook ext__stable_partition__vecit_Engine_TaggedPrekillHook_vecit_Engine_TaggedPrekillHook_lambda_t(vecit_Engine_TaggedPrekillHook first, vecit_Engine_TaggedPrekillHook last, void *pred)
+{ vecit_Engine_TaggedPrekillHook r = first; r.i = nondet_u64(); __CPROVER_assume(r.i >= first.i && r.i <= last.i); g_hooks_removed = last.i - r.i; return r; }
+#define ext__partition(a, b, p) ext__partition__vecit_Engine_TaggedPrekillHook_vecit_Engine_TaggedPrekillHook_lambda_t((a), (b), (void *)0)
+#define ext__stable_partition(a, b, p) ext__stable_partition__vecit_Engine_TaggedPrekillHook_vecit_Engine_TaggedPrekillHook_lambda_t((a), (b), (void *)0)
 vecit_Engine_TaggedPrekillHook vec_Engine_TaggedPrekillHook__erase(vec_Engine_TaggedPrekillHook *v, vecit_Engine_TaggedPrekillHook first, vecit_Engine_TaggedPrekillHook last)
 {
   __CPROVER_assert(last.i == v->n && first.i == v->n - g_hooks_removed, "exactly the hooks carrying the tag are erased");
@@ -206,11 +215,13 @@ void Engine__removeDropInConfig(Engine *self, str_t tag)
   __CPROVER_requires(__CPROVER_is_fresh(self, sizeof(*self)) && ENG_WF(self) && BASE_WF && ghost_exc == 0)
   __CPROVER_requires(g_removed_total == 0 && g_erased_total == 0 && g_untargeted_calls <= VEC_MAX && g_stat_minus <= (1UL << 40))
   __CPROVER_assigns(self->prekill_hooks_in_reverse_order_, g_base, g_base_idx, g_removed_here, g_removed_total, g_erased_total,
-                    g_untargeted_calls, g_stat_minus, g_hooks_removed, g_hooks_erased)
+                    g_untargeted_calls, g_stat_minus, g_hooks_removed, g_hooks_erased, g_hooks_order_kept)
   /* every tagged entry erased; each costs its base exactly one untarget; the stat drops by the same number */ /*@C13*/
   __CPROVER_ensures(g_erased_total == g_removed_total && g_untargeted_calls == __CPROVER_old(g_untargeted_calls) + g_removed_total &&
                     g_stat_minus == __CPROVER_old(g_stat_minus) + g_removed_total)
   __CPROVER_ensures(g_hooks_erased && self->prekill_hooks_in_reverse_order_.n == __CPROVER_old(self->prekill_hooks_in_reverse_order_.n) - g_hooks_removed) /*@C13,C07*/
+  /* the hooks that stay keep their relative order: it is their priority (newest drop-in first, config order within one) */ /*@C07*/
+  __CPROVER_ensures(g_hooks_order_kept)
   __CPROVER_ensures(BASE_WF && ghost_exc == 0);
 #define LOOPC_Engine__removeDropInConfig_1 \
   __CPROVER_assigns(__begin2, g_base, g_base_idx, g_removed_here, g_removed_total, g_erased_total, g_untargeted_calls, g_stat_minus) \
@@ -246,7 +257,7 @@ _Bool Engine__addDropInConfig(Engine *self, str_t tag, DropInUnit unit)
                      g_removed_total == 0 && g_erased_total == 0 && !g_hooks_erased && g_hook_pushes == 0)
   __CPROVER_assigns(self->prekill_hooks_in_reverse_order_, g_base, g_base_idx, g_find_pos, g_front_pushes, g_front_tag, g_front_rs, g_targeted_calls,
                     g_stat_plus, g_stat_minus, g_removed_here, g_removed_total, g_erased_total, g_untargeted_calls, g_hooks_removed, g_hooks_erased,
-                    g_hook_pushes, g_hook_last_idx)
+                    g_hook_pushes, g_hook_last_idx, g_hooks_order_kept)
   /* accepted: every ruleset of the unit was added under this tag, in file order, and all its hooks appended */ /*@C13*/
   __CPROVER_ensures(__CPROVER_return_value ? (g_front_pushes == unit.rulesets.n && g_hook_pushes == unit.prekill_hooks.n && !g_hooks_erased &&
                                               self->prekill_hooks_in_reverse_order_.n == __CPROVER_old(self->prekill_hooks_in_reverse_order_.n) + unit.prekill_hooks.n) : 1)
@@ -314,7 +325,7 @@ void h_Engine__prerun(void) { Engine *self; OomdContext c; HAVOC_ENG(); Engine__
 void h_Engine__runOnce(void) { Engine *self; OomdContext c; HAVOC_ENG(); Engine__runOnce(self, c); CANARY; }
 void h_Engine__addDropInRuleset(void) { Engine *self; str_t t; uptr_Ruleset r; HAVOC_ENG(); Engine__addDropInRuleset(self, t, r); CANARY; }
 void h_Engine__addDropInConfig(void) { Engine *self; str_t t; DropInUnit u; HAVOC_ENG(); Engine__addDropInConfig(self, t, u); CANARY; }
-void h_Engine__removeDropInConfig(void) { Engine *self; str_t t; HAVOC_ENG(); Engine__removeDropInConfig(self, t); CANARY; }
+void h_Engine__removeDropInConfig(void) { Engine *self; str_t t; HAVOC_ENG(); g_hooks_order_kept = 1; Engine__removeDropInConfig(self, t); CANARY; }
 void h_Engine__firePrekillHook(void) { Engine *self; CgroupContext cg; OomdContext c; HAVOC_ENG(); Engine__firePrekillHook(self, cg, c); CANARY; }
 void h_Engine__lambda_pred(void) { str_t t; Engine_DropInRuleset d; Engine__removeDropInConfig__lambda_pred(t, d); CANARY; }
 void h_Engine__lambda_hookpred(void) { str_t t; Engine_TaggedPrekillHook d; Engine__removeDropInConfig__lambda_1(t, d); CANARY; }
